@@ -188,6 +188,37 @@ def near_duplicate(r, world, types, colors, unique=None, beacon=False):
     return w
 
 
+def carve_maze(r, world, unique=None, keep=()):
+    """turn the world's grid into a perfect maze (walls with winding one-cell corridors) in place, keeping the
+    agent's cell, the unique object and the cells in `keep`; long shortest paths are the point."""
+    h, w = world['h'], world['w']
+    cells = world['cells']
+    protected = {(world['agent'][0], world['agent'][1])} | set(keep)
+    for y in range(h):
+        for x in range(w):
+            if cells[y][x][0] == unique or (y, x) in protected:
+                continue
+            cells[y][x] = ['Wall']
+    nodes = [(y, x) for y in range(0, h, 2) for x in range(0, w, 2)]
+    if not nodes:
+        return
+    start = r.choice(nodes)
+    seen = {start}
+    stack = [start]
+    while stack:
+        y, x = stack[-1]
+        nb = [(y + dy, x + dx) for dy, dx in ((-2, 0), (2, 0), (0, -2), (0, 2)) if 0 <= y + dy < h and 0 <= x + dx < w and (y + dy, x + dx) not in seen]
+        if not nb:
+            stack.pop()
+            continue
+        ny, nx = r.choice(nb)
+        for (cy, cx) in ((ny, nx), ((y + ny) // 2, (x + nx) // 2), (y, x)):
+            if cells[cy][cx][0] == 'Wall':
+                cells[cy][cx] = ['Floor']
+        seen.add((ny, nx))
+        stack.append((ny, nx))
+
+
 def gen_types(r, must=()):
     n = r.randint(2, len(BUILTIN_TYPES))
     ts = set(r.sample(BUILTIN_TYPES, n)) | {'Floor'} | set(must)
@@ -382,8 +413,16 @@ def gen_hand_client(r, *, hmax=8, wmax=8, allow_stochastic=True, deterministic_o
         else:
             align = False
 
+    maze = (not strip) and 'Wall' in types and unique != 'Wall' and r.random() < 0.07
+    if maze:
+        h, w = r.choice([5, 7, 9]), r.choice([5, 7, 9])
+        align = False
+
     def mk():
         wv = gen_world(r, h, w, types, colors, **wkw)
+        if maze:
+            carve_maze(r, wv, unique)
+            return wv
         if align and r.random() < 0.7:
             c = wv['cells'][ay][ax]
             blocking = c[0] in ('Wall', 'Box') or (c[0] == 'Door' and c[1] != 'OPEN')
@@ -430,8 +469,15 @@ def gen_hand_client(r, *, hmax=8, wmax=8, allow_stochastic=True, deterministic_o
     }
     if len(chain) >= 2 and r.random() < 0.15:
         i = r.randrange(len(chain) - 1)
-        spec['nest'] = [i, r.randint(i + 1, len(chain))]
-    spec['knobs'] = [k for k, on in (('view_covers_grid', align), ('long_strip', strip), ('near_duplicate_states', near_dup), ('nested_chain', 'nest' in spec)) if on]
+        j = r.randint(i + 1, len(chain))
+        spec['nest'] = [i, j]
+        if r.random() < 0.5:
+            # a second nested chain (before or after the first)
+            if i >= 1:
+                spec['nest2'] = [r.randrange(i), i]
+            elif j < len(chain):
+                spec['nest2'] = [j, r.randint(j + 1, len(chain))]
+    spec['knobs'] = [k for k, on in (('view_covers_grid', align), ('long_strip', strip), ('near_duplicate_states', near_dup), ('nested_chain', 'nest' in spec), ('maze', maze)) if on]
     return spec
 
 
